@@ -163,6 +163,9 @@ def run(tier, replay):
                     pass
         for c in corpus.programs():
             extra.append(("corpus:" + c["src"], c["text"]))
+        import tour
+        for i, t in enumerate(tour.TOUR + tour.ODD):
+            extra.append(("tour:%d" % i, t))
         for fam, t in extra:
             for si in (STDINS if (tier == "thorough" or "INPUT" in t.upper()) else STDINS[:2]):
                 texts.append((fam, t, si))
